@@ -107,6 +107,13 @@ finding `evict-close-window`; no `accept … close` bookkeeping is needed there)
 def holdsFine (n m cap : Nat) (ops : List FineOp) (o : Obs) : Bool :=
   holdsWith n m (fun _ => false) (fun _ => false) (runFine .repaired (init n cap) ops).evicted o
 
+/-- The property for two blocks `a`, `b` of operations run against each other after a prefix (block `a`
+parked inside `UpdateAuth` while `b` runs): every registry method is one atomic step, so the outcome must be
+the outcome of one of the two orders, and satisfy the property for that history. -/
+def holdsRace (n m cap : Nat) (pre a b : List Op) (o : Obs) : Bool :=
+  (o == obsOf (run .repaired (init n cap) (pre ++ a ++ b)) m && holds n m cap (pre ++ a ++ b) false o) ||
+  (o == obsOf (run .repaired (init n cap) (pre ++ b ++ a)) m && holds n m cap (pre ++ b ++ a) false o)
+
 /-- The property for a concurrent run: `ops` = prefix ++ all thread blocks (every operation has
 returned before the snapshot).  Only history facts that do not depend on the order are used. -/
 def holdsPar (n m : Nat) (ops : List Op) (o : Obs) : Bool :=
